@@ -12,7 +12,8 @@ import numpy as np
 from fractions import Fraction
 from common import *
 
-RULE = ("systematic sweep of the full cross product monotonicity{-1,0,1} x convexity{-1,0,1} x bounds{none,min,max,both} "
+RULE = ("PWLCalibrationConstraints with Python-list lengths (positive control; zero / negative / all-zero entries must be "
+        "rejected at construction, anything accepted is applied to a kernel and must stay finite); systematic sweep of the full cross product monotonicity{-1,0,1} x convexity{-1,0,1} x bounds{none,min,max,both} "
         "x clamp_min x clamp_max (+ is_cyclic for monotonicity=convexity=0), each cell repeated with random 2-8 keypoints "
         "(dyadic positive spacing), 1-3 units, num_projection_iterations in {0,1,2,8,50}, entry point in {constraint object, "
         "layer.build() wiring + keypoints_outputs(), project_all_constraints}; kernels dyadic / ints with ties / wide doubles / "
@@ -467,7 +468,83 @@ def check_stages(ctx, items, replies):
 
 
 # ---------------------------------------------------------------- entry points
+# ---------------------------------------------------------------- list lengths handed to the constraints class
+def gen_list_lengths(rng):
+  """PWLCalibrationConstraints with PYTHON-LIST lengths (the form `verify_hyperparameters` can inspect): positive
+  (control) or with zero / negative entries at any position (fix e215d06), any monotonicity / convexity / bounds."""
+  k = rng.randint(2, 7)
+  kind = rng.choice(["positive", "zero", "zero", "negative", "all_zero"])
+  lengths = [Fraction(rng.randint(1, 16), 4) for _ in range(k - 1)]
+  if kind == "zero":
+    for i in rng.sample(range(k - 1), rng.randint(1, k - 1)):
+      lengths[i] = Fraction(0)
+  elif kind == "negative":
+    lengths[rng.randrange(k - 1)] = -Fraction(rng.randint(1, 8), 4)
+  elif kind == "all_zero":
+    lengths = [Fraction(0)] * (k - 1)
+  mono = rng.choice([-1, 0, 1])
+  conv = rng.choice([-1, 1, 1, 0])
+  bmode = rng.choice(["none", "none", "both", "min"])
+  a = Fraction(rng.randint(-4, 4), 2)
+  omin = a if bmode in ("both", "min") else None
+  omax = a + Fraction(rng.randint(1, 8), 2) if bmode == "both" else None
+  units = rng.randint(1, 2)
+  w = [[gen_value(rng, rng.choice(["dyadic", "int"])) for _ in range(units)] for _ in range(k)]
+  return dict(list_lengths=kind, lengths=lengths, mono=mono, conv=conv, omin=omin, omax=omax, iters=rng.choice([0, 1, 8]), w=w,
+              as_tuple=rng.random() < 0.3)
+
+
+def check_list_lengths(ctx, case):
+  """property: non-positive piece lengths are rejected with ValueError when the constraint is constructed; whatever
+  is accepted is then APPLIED and must return finite keypoint outputs meeting the clauses of the property."""
+  import tensorflow as tf
+  from tensorflow_lattice.python import pwl_calibration_layer as pl
+  kind = case["list_lengths"]
+  lengths = [Fraction(v) for v in case["lengths"]]
+  cfg = dict(mono=case["mono"], conv=case["conv"], omin=None if case["omin"] is None else Fraction(case["omin"]),
+             omax=None if case["omax"] is None else Fraction(case["omax"]), cmin=False, cmax=False, cyclic=False)
+  key = dict(cls="list_lengths:" + kind, clamp="", iters0=(case["iters"] == 0), cyclic=False)
+  ctx.case(sig=("list_lengths", kind, case["mono"], case["conv"], len(lengths)), nontrivial=True, sample=case)
+  _, _, minc, maxc = wired(cfg)
+  ls = [float(l) for l in lengths]
+  try:
+    cons = pl.PWLCalibrationConstraints(
+        monotonicity=cfg["mono"], convexity=cfg["conv"], lengths=tuple(ls) if case.get("as_tuple") else ls,
+        output_min=None if cfg["omin"] is None else float(cfg["omin"]),
+        output_max=None if cfg["omax"] is None else float(cfg["omax"]),
+        output_min_constraints=minc, output_max_constraints=maxc, num_projection_iterations=int(case["iters"]))
+  except ValueError as e:
+    ctx.count("list_lengths:%s:rejected" % kind)
+    if isinstance(e, tf.errors.OpError) or kind == "positive":
+      ctx.fail("raises", key, case, classify_exc(e), "constructor rejected positive list lengths")
+    return
+  except Exception as e:  # pylint: disable=broad-except
+    ctx.fail("raises", key, case, classify_exc(e), "constructor raised something else than ValueError")
+    return
+  ctx.count("list_lengths:%s:accepted" % kind)
+  # float32 weights: Python-list lengths become float32 tensors inside the projection (with float64 weights the
+  # real code raises TypeError `x and y must have the same dtype` — reported to the lead, not this stream's subject)
+  wf = np.array([[float(Fraction(v)) for v in row] for row in case["w"]], dtype=np.float32)
+  try:
+    out = cons(tf.constant(wf, dtype=tf.float32)).numpy().astype(np.float64)
+  except Exception as e:  # pylint: disable=broad-except
+    ctx.fail("raises", key, case, classify_exc(e), "accepted lengths, the constraint raises when applied")
+    return
+  if not np.all(np.isfinite(out)):
+    ctx.fail("finite", key, case, out, "accepted piece lengths %s: the applied constraint returns non-finite weights" % ls)
+    return
+  if kind != "positive":
+    ctx.fail("lengths", key, case, out, "non-positive piece lengths %s were accepted" % ls)
+    return
+  scale = max_abs(wf.ravel(), [cfg["omin"] or 0, cfg["omax"] or 0])
+  for u in range(wf.shape[1]):
+    for clause, detail in clauses(cfg, lengths, out[:, u], 1e-4 * scale):
+      ctx.fail(clause, key, case, out[:, u], "unit %d: %s" % (u, detail))
+
+
 def run(ctx):
+  for _ in range(ctx.n(60, 1500)):
+    check_list_lengths(ctx, gen_list_lengths(ctx.rng))
   reps = ctx.n(8, 160)
   cases = gen_cases(ctx, reps)
   reals, lines, spans = [], [], []
@@ -487,6 +564,9 @@ def run(ctx):
 def replay(ctx, failure):
   """Re-executes one recorded failing case on the current tree."""
   case = failure["case"]
+  if "list_lengths" in case:
+    check_list_lengths(ctx, case)
+    return
   if "stage_case" in case:
     import tensorflow as tf
     d = case["stage_case"]
